@@ -21,7 +21,10 @@ def run(ctx: Ctx):
                        "non-empty subset), thresholds k/1024, both edge orientations, shuffled rows, single concatenated input or "
                        "one table per dataset; half the runs tie-free (distinct k/1024 probabilities), half with tie groups <= 3 "
                        "(+ occasional duplicated edge row). Non-trivial: >= 3 iterations, some cluster with >= 2 records and a "
-                       "record of a duplicate-free dataset. Distinct by the whole case.")
+                       "record of a duplicate-free dataset. Distinct by the whole case. A quarter of the cases pass the threshold as a match "
+                       "weight (integer / fractional; model threshold = exact value of the implementation's own conversion, often an edge "
+                       "exactly on it). Plus histories of 2-3 clusterings on ONE linker with the predictions re-registered under the same "
+                       "name (mostly same threshold and duplicate-free datasets, outputs kept or dropped), every call checked.")
     ctx.trusted += [
         "harness T: sqlglot parse of the emitted __splink__df_ranked_N SQL (window ORDER BY keys compared syntactically with the two modelled shapes)",
         "harness X: composite ids are replaced by their rank in binary string order (what min() over the id strings uses on DuckDB/SQLite)",
